@@ -253,7 +253,11 @@ def register_dataclass_type_with_jax_tree_util(data_class):
         constructable from keyword arguments corresponding to the members exposed
         in instance.__dict__.
     """
-    flatten = lambda d: jax.util.unzip2(sorted(d.__dict__.items()))[::-1]
+    def flatten(d):
+        # (jax.util.unzip2 was removed from JAX's public namespace.)
+        keys, values = zip(*sorted(d.__dict__.items()))
+        return values, keys
+
     unflatten = lambda keys, values: data_class(**dict(zip(keys, values)))
     try:
         jax.tree_util.register_pytree_node(
